@@ -339,11 +339,18 @@ func posScenarios(id, tier string) []Scenario {
 		var scs []Scenario
 		for i, c := range c07cfgs() {
 			kk := k
-			if i > 1 && !th {
-				kk = 1
+			if i >= 5 && !th {
+				kk = 1 // the extreme-fraction configurations: single deviations in the quick tier
 			}
 			scs = append(scs, Scenario{Name: fmt.Sprintf("slash-stake=%d-fdouble=%s-fdown=%s", c.Vals[0].Stake, c.Pos.SlashDoubleStr, c.Pos.SlashDowntimeStr), Cfg: c, Alphabet: slashAlphabet(), K: kk, D: d, Tail: 1})
 		}
+		// a window of 1 with MinSignedPerWindow = 1: a single miss jails, so slashes of an already
+		// jailed validator are within two deviations
+		jf := windowCfg(1, 1, 1, 3*min+333333)
+		pj := *jf.Pos
+		pj.SlashDoubleStr, pj.SlashDowntimeStr = "0.333333333333333333", "0.010000000000000001"
+		jf.Pos = &pj
+		scs = append(scs, Scenario{Name: "slash-jailed-fast", Cfg: jf, Alphabet: slashAlphabet(), K: k, D: d, Tail: 1})
 		return scs
 	case "C08":
 		var scs []Scenario
